@@ -12,6 +12,7 @@ import (
 	"net"
 	"net/http"
 	"sort"
+	"strings"
 	"sync"
 	"time"
 
@@ -110,6 +111,16 @@ type Cluster struct {
 	reqs     []StreamReq
 	closed   bool
 
+	// Version is the implementationVersion served under /pools; BucketType / StorageBackend are served under
+	// /pools/default/buckets/b (Layer C: the real dcp.NewDcp bootstraps over HTTP).
+	Version        string
+	BucketType     string
+	StorageBackend string
+	// PoolsMode scripts GET /pools: "" (200 + Version), "error" (500), "garbage" (200 + non-JSON)
+	PoolsMode string
+	controls  []DcpControl
+	connCtr   int
+
 	// MgmtMode scripts the management endpoint: "" (200), "error" (500), "silent" (no answer).
 	MgmtMode string
 	mgmtHits int
@@ -124,6 +135,21 @@ type Cluster struct {
 	OnKVWrite func(key string, vb uint16)
 }
 
+// DcpControl is one DCP_CONTROL request as received (per connection, in order).
+type DcpControl struct {
+	Node  int
+	Conn  int
+	Key   string
+	Value string
+}
+
+// DcpControls returns every DCP_CONTROL request received so far.
+func (c *Cluster) DcpControls() []DcpControl {
+	c.mu.Lock()
+	defer c.mu.Unlock()
+	return append([]DcpControl(nil), c.controls...)
+}
+
 type Node struct {
 	c        *Cluster
 	Idx      int
@@ -136,6 +162,7 @@ type Node struct {
 }
 
 type Conn struct {
+	id  int
 	mc  *memd.Conn
 	nc  net.Conn
 	wmu sync.Mutex
@@ -174,6 +201,8 @@ func New(servers, numVb, replicas int) *Cluster {
 					c.mgmtHits++
 					c.mu.Unlock()
 					switch {
+					case strings.HasPrefix(r.URL.Path, "/pools"):
+						c.servePools(n, w, r)
 					case r.URL.Path != "" && r.URL.Path != "/":
 						w.WriteHeader(http.StatusNotFound)
 					case mode == "error":
@@ -204,6 +233,62 @@ func New(servers, numVb, replicas int) *Cluster {
 		go n.accept()
 	}
 	return c
+}
+
+// servePools: the management REST paths go-dcp and gocbcore's HTTP bootstrap use.
+func (c *Cluster) servePools(n *Node, w http.ResponseWriter, r *http.Request) {
+	c.mu.Lock()
+	ver, bt, sb, mode := c.Version, c.BucketType, c.StorageBackend, c.PoolsMode
+	cfg := c.config(n.Idx)
+	c.mu.Unlock()
+	if ver == "" {
+		ver = "7.6.0-0000-enterprise"
+	}
+	if bt == "" {
+		bt = "membase"
+	}
+	if sb == "" {
+		sb = "couchstore"
+	}
+	switch {
+	case r.URL.Path == "/pools":
+		switch mode {
+		case "error":
+			w.WriteHeader(http.StatusInternalServerError)
+		case "garbage":
+			_, _ = w.Write([]byte("<html>not json</html>"))
+		default:
+			b, _ := json.Marshal(map[string]any{"implementationVersion": ver, "isEnterprise": true})
+			_, _ = w.Write(b)
+		}
+	case r.URL.Path == "/pools/default/buckets/b":
+		b, _ := json.Marshal(map[string]any{"name": "b", "bucketType": bt, "storageBackend": sb})
+		_, _ = w.Write(b)
+	case r.URL.Path == "/pools/default/b/b":
+		_, _ = w.Write(cfg)
+	case r.URL.Path == "/pools/default/bs/b":
+		// streaming config: one block, then the connection stays open until the client goes away
+		_, _ = w.Write(cfg)
+		_, _ = w.Write([]byte("\n\n\n\n"))
+		if f, ok := w.(http.Flusher); ok {
+			f.Flush()
+		}
+		select {
+		case <-r.Context().Done():
+		case <-time.After(30 * time.Second):
+		}
+	default:
+		w.WriteHeader(http.StatusNotFound)
+	}
+}
+
+// HTTPAddrs returns the management endpoints (host:port) of the nodes.
+func (c *Cluster) HTTPAddrs() []string {
+	var a []string
+	for _, n := range c.Nodes {
+		a = append(a, fmt.Sprintf("http://127.0.0.1:%d", n.MgmtPort))
+	}
+	return a
 }
 
 func (c *Cluster) Addrs() []string {
@@ -327,6 +412,8 @@ func (n *Node) accept() {
 			return
 		}
 		n.conns[cn] = struct{}{}
+		n.c.connCtr++
+		cn.id = n.c.connCtr
 		n.c.mu.Unlock()
 		go n.serve(cn)
 	}
@@ -410,12 +497,30 @@ func (n *Node) handle(cn *Conn, p *memd.Packet, e *Entry) {
 	case memd.CmdGetErrorMap:
 		res.Value = []byte(`{"version":1,"revision":1,"errors":{}}`)
 	case memd.CmdSASLListMechs:
-		res.Value = []byte("PLAIN")
+		res.Value = []byte("SCRAM-SHA512 SCRAM-SHA256 SCRAM-SHA1 PLAIN")
 	case memd.CmdSASLAuth:
-		if string(p.Key) != "PLAIN" {
+		switch {
+		case string(p.Key) == "PLAIN":
+		case strings.HasPrefix(string(p.Key), "SCRAM-SHA"):
+			// client-first: n,,n=<user>,r=<nonce>. gocbcore does not verify the server signature (the SASL_STEP reply
+			// completes the exchange), so any well-formed server-first message with one iteration will do.
+			nonce := ""
+			for _, f := range strings.Split(string(p.Value), ",") {
+				if strings.HasPrefix(f, "r=") {
+					nonce = f[2:]
+				}
+			}
+			res.Status = memd.StatusAuthContinue
+			res.Value = []byte("r=" + nonce + "c2ltbm9kZQ,s=c2ltbm9kZXNhbHQ=,i=1")
+		default:
 			res.Status = memd.StatusAuthError
 		}
-	case memd.CmdSelectBucket, memd.CmdDcpControl, memd.CmdNoop:
+	case memd.CmdSASLStep:
+	case memd.CmdDcpControl:
+		c.mu.Lock()
+		c.controls = append(c.controls, DcpControl{Node: n.Idx, Conn: cn.id, Key: string(p.Key), Value: string(p.Value)})
+		c.mu.Unlock()
+	case memd.CmdSelectBucket, memd.CmdNoop:
 	case memd.CmdDcpOpenConnection:
 		cn.Dcp = true
 	case memd.CmdGetClusterConfig:
